@@ -58,7 +58,7 @@ def events(outdir, name):
 
 def parse_predictions(out):
     flat = re.sub(r"\s+", " ", out)
-    dead, races, other = set(), set(), set()
+    dead, races, other, splits = set(), set(), set(), set()
     for m in re.finditer(r'<<\s*"PRED",\s*"(\w+)",\s*"(\w+)",\s*(.*?)>>', flat):
         kind, ty, rest = m.group(1), m.group(2), m.group(3)
         names = re.findall(r'"(\w+)"', rest)
@@ -66,9 +66,11 @@ def parse_predictions(out):
             dead.add((ty, names[0]))
         elif kind == "DATARACE":
             races.add((ty,) + tuple(sorted(names[:2])))
+        elif kind == "SPLIT":
+            splits.add((ty, names[0]))
         else:
             other.add((kind, ty, tuple(names)))
-    return dead, races, other
+    return dead, races, other, splits
 
 
 def model_check(run, workers):
@@ -83,6 +85,7 @@ def model_check(run, workers):
     vf.log("MC %-28s %-28s states=%d transitions=%d %.1fs %s" % ("MC_LockDiscipline", cfg, r["distinct"], r["generated"], r["wall"],
                                                              "clean" if r["clean"] else "REFUTED"))
     dead, races, other = set(), set(), set()
+    splits = parse_predictions(r["out"])[3]
     if r["clean"]:
         if zero:
             raise vf.MachineryError("vacuity: actions never taken by MC_LockDiscipline: %s" % zero)
@@ -98,7 +101,7 @@ def model_check(run, workers):
         r2 = run.tlc("MC_LockDiscipline", cfg="MC_LockDiscipline_predict.cfg", workers=workers, timeout=3000)
         if not r2["clean"]:
             raise vf.MachineryError("prediction run of MC_LockDiscipline failed:\n" + vf.tail(r2["out"], 40))
-        dead, races, other = parse_predictions(r2["out"])
+        dead, races, other, splits = parse_predictions(r2["out"])
         if not (dead or races or other):
             raise vf.MachineryError("TLC refuted %s but the prediction run lists nothing" % m.group(1))
         rec["predicted"] = dict(self_deadlocks=sorted(map(list, dead)), data_races=len(races), other=sorted(map(str, other)))
@@ -106,8 +109,9 @@ def model_check(run, workers):
         run.mc_transitions += r2["generated"]
         vf.log("PREDICTED by TLC on the extracted table: %d self-deadlocks %s, %d racing pairs of point operations, %d other"
                % (len(dead), sorted(dead)[:6], len(races), len(other)))
+    rec["point_operations_made_of_several_critical_sections"] = sorted(map(list, splits))
     run.mc_runs.append(rec)
-    return dead, races, other
+    return dead, races, other, splits
 
 
 def body(run):
@@ -115,7 +119,7 @@ def body(run):
     w = run.pick(4, 16)
     # ---- the table of the tree under test -> TLC constant
     run.drive("c10", args={"mode": "table"})
-    dead, races, other = model_check(run, w)
+    dead, races, other, splits = model_check(run, w)
     if other:
         raise vf.MachineryError("TLC predicts lock-order or leaked-lock defects the driver has no dynamic witness for: %s" % sorted(other)[:5])
 
@@ -134,16 +138,40 @@ def body(run):
         run.events += job.get("events", 0)
         run.trace_runs.append(dict(trace=job["trace"], spec=job["spec"], events=job.get("events", 0), histories=job.get("histories", 0), rejected_histories=0))
         vf.log("TRACE %-24s %-20s events=%d histories=%d (table binding)" % (job["trace"], job["spec"], job.get("events", 0), job.get("histories", 0)))
-    # (A2) static prediction and dynamic outcome must agree
+    # (A2) every public method in every state returns: a call that did not has no action (VIOLATION once reproduced)
+    run.validate(out, sub(meta, ["watchdog"]))
+    # (A3) linearizability.  Which interleaving an execution meets is not in the harness's hands: a rejection that
+    # does not come back in the 60 re-executions of the triage is a machinery failure, but only at the END of the
+    # run -- the lock-discipline stages below do not depend on it and may have a verdict about the same defect
+    deferred = []
+    try:
+        run.validate(out, sub(meta, ["lin"]), dfs=True)
+    except vf.MachineryError as ex:
+        vf.log("DEFERRED machinery failure (linearizability stage): %s" % str(ex)[:300])
+        deferred.append(ex)
+    # (A3') the point operations TLC found to be made of several critical sections, against themselves
+    bytype = {}
+    for ty, m in sorted(splits):
+        bytype.setdefault(ty, []).append(m)
+    directed = {}
+    for ty, ms in sorted(bytype.items()):
+        outd, metad = run.drive("c10", gen="lin", args={"types": ty, "ops": "+".join(ms), "cases": run.pick(300, 3000)}, timeout=2400)
+        before = len(run.violations)
+        try:
+            run.validate(outd, sub(metad, ["lin"]), dfs=True)
+        except vf.MachineryError as ex:
+            vf.log("DEFERRED machinery failure (directed histories of %s): %s" % (ty, str(ex)[:300]))
+            deferred.append(ex)
+        directed["%s.%s" % (ty, "+".join(ms))] = dict(histories=sum(j.get("histories", 0) for j in metad.get("jobs", [])),
+                                                      rejected=len(run.violations) - before)
+    run.extra["directed_histories_for_operations_of_several_critical_sections"] = directed
+    # static prediction and dynamic outcome must agree (after the verdicts: a reproduced hang stands whatever the table says)
     seen = {(e["t"], e["m"]) for e in events(out, "watchdog") if e.get("ev") == "Outcome" and e.get("out") == "timeout"}
     if seen - dead:
         raise vf.MachineryError("calls that did not return although the extracted table predicts no self-deadlock for them "
                                 "(table incomplete, or the machine stalled): %s" % sorted(seen - dead))
     if dead - seen:
         raise vf.MachineryError("TLC predicts a self-deadlock the real call does not show (table too coarse): %s" % sorted(dead - seen))
-    run.validate(out, sub(meta, ["watchdog"]))
-    # (A3) linearizability
-    run.validate(out, sub(meta, ["lin"]), dfs=True)
 
     # ---- race-detector build: the same programs unstamped, plus the pairs TLC predicted (and two excluded pairs)
     outr, metar = run.drive("c10", args={"mode": "race"}, race=True, gen="race", timeout=2400)
@@ -166,6 +194,9 @@ def body(run):
     run.extra["races_outside_the_property_observed"] = excluded
     if unconfirmed:
         raise vf.MachineryError("%d of %d predicted racing pairs were not confirmed: " % (len(unconfirmed), len(asked)) +"TLC predicts data races on the extracted table that the race detector does not show: %s" % unconfirmed[:8])
+
+    if deferred:
+        raise deferred[0]
 
     # ---- binding self-tests
     if run.violations:
